@@ -1,13 +1,13 @@
 //! `crate::vstd`: what biscuit-auth's `std::collections` imports are redirected to in the
 //! solver workspace (DESIGN 2.3). Under the solver: Vec-backed models. Under native replay
-//! (`--cfg bv_native`) and in any non-Kani build: the real std containers.
-#[cfg(all(kani, not(bv_native)))]
+//! (`cargo kani playback` builds with cfg(test)) and in any non-Kani build: the real std containers.
+#[cfg(all(kani, not(test)))]
 #[path = "vstd_model.rs"]
 mod model;
-#[cfg(all(kani, not(bv_native)))]
+#[cfg(all(kani, not(test)))]
 pub use model::*;
 
-#[cfg(not(all(kani, not(bv_native))))]
+#[cfg(not(all(kani, not(test))))]
 pub use std::collections::{btree_map, btree_set, hash_map, hash_set, BTreeMap, BTreeSet, HashMap, HashSet};
-#[cfg(not(all(kani, not(bv_native))))]
+#[cfg(not(all(kani, not(test))))]
 pub type BitSet = std::collections::BTreeSet<usize>;
